@@ -851,6 +851,11 @@ def _judge_A(acc, s, lit, idx, req):
         if got and not rf:
             acc.v("literal:%s:accepts:shape=%s" % (fn, shape(s)), "%s accepts %r, not a documented float literal" % (fn, s), wit)
         elif rf and not got:
+            if fn == "toDouble" and math.isinf(float(t)):
+                # a literal of the documented form whose value no double can hold: toDouble() refuses it (a
+                # coordinate 'inf' cannot be adjusted; C11 demands the refusal), IsFloat() still recognises the form
+                acc.cnt("float_literals_overflowing_double(refused by toDouble)")
+                continue
             acc.v("literal:%s:rejects:shape=%s" % (fn, shape(s)), "%s refuses the valid literal %r" % (fn, s), wit)
     for fn, got in (("IsInteger", isi == "1"), ("toInteger", oki == "1")):
         if got and not ri:
